@@ -16,8 +16,10 @@ import (
 // groups that hold kind-specific keywords the admitted kinds are decided exactly: Applies is evaluated by
 // constant propagation for every reflect.Kind (the source left unknown) and must be possibly-true for every
 // kind the keywords govern and constant false for every other kind:
-//   string keywords (maxLength…)  : String                      number keywords (maximum…) : every Int*, Uint*, Float*
-//   object keywords (maxProperties…): Map (Struct tolerated)     array keywords (maxItems…) : Slice (Array tolerated)
+//
+//	string keywords (maxLength…)  : String                      number keywords (maximum…) : every Int*, Uint*, Float*
+//	object keywords (maxProperties…): Map (Struct tolerated)     array keywords (maxItems…) : Slice (Array tolerated)
+//
 // The group is identified by the schema keyword its constructor receives (spec field names), not by its name.
 func AppliesTable(p *core.Prog, r *core.Report) {
 	const rule = "APPLIES-TABLE"
